@@ -26,11 +26,11 @@ def other_libraries(ev, vd, d, quick, rnd):
     f = os.path.join(d, 'o_layout.txt')
     LAY.write_cases(f, cases)
     jobs.append(('libcola:layout', [hl, 'run', f, f + '.json', '20', '0']))
-    scenes = [c13.with_resize(c13.gen_scene(rnd), rnd) for _ in range(15 if quick else 300)]
+    scenes = [c13.with_resize(c13.gen_scene(rnd), rnd) for _ in range(15 if quick else 300)] + [c13.wrapped_scene(rnd) for _ in range(5 if quick else 100)]
     f = os.path.join(d, 'o_topo.txt')
     with open(f, 'w') as fh:
-        for nodes, edges, drag, steps, dx, dy, rz, rw, rh, reuse, drag2, steps2, d2 in scenes:
-            fh.write(' '.join(map(str, [len(nodes)] + [v for nd in nodes for v in nd] + [len(edges)] + [v for e in edges for v in e] + [drag, steps, dx, dy, rz, rw, rh, reuse, drag2, steps2, d2])) + '\n')
+        for sc in scenes:
+            fh.write(c13.scene_row(sc) + '\n')
     jobs.append(('libtopology', [ht, 'run', f, f + '.json']))
     graphs = [c19.random_graph(rnd, rnd.randint(2, 25)) for _ in range(60 if quick else 1500)]
     f = os.path.join(d, 'o_peel.txt')
